@@ -23,6 +23,79 @@ def _M():
     return models
 
 
+class DtypeVal:
+    """dtype of a modelled array by kind: 'i' (int64), 'f' (float64), 'b' (bool), 'U' (str), 'S' (bytes), 'O' (object)"""
+
+    def __init__(self, kind):
+        self.kind = kind
+
+    def __repr__(self):
+        return "<dtype %s>" % self.kind
+
+    def __eq__(self, o):
+        return isinstance(o, DtypeVal) and o.kind == self.kind
+
+    def __hash__(self):
+        return hash(("dtype", self.kind))
+
+
+DTYPE_NAMES = {"O": "O", "object": "O", "float64": "f", "f8": "f", "float": "f", "int64": "i", "i8": "i", "int": "i", "bool": "b"}
+
+
+def is_nan(x):
+    return isinstance(x, Opaque) and x.desc == "nan"
+
+
+def dtype_of(e):
+    """element kind numpy would have chosen for these elements (mixed int/float -> float64; anything else -> object)"""
+    forced = getattr(e, "dtype", None)
+    if forced is not None:
+        return forced
+    data = e.data
+    if not data:
+        return "f"
+    from .values import is_boollike
+
+    if all(isinstance(x, str) for x in data):
+        return "U"
+    if all(isinstance(x, bytes) for x in data):
+        return "S"
+    if all(is_boollike(x) for x in data):
+        return "b"
+    if any(is_boollike(x) for x in data):
+        raise Unsupported("dtype of an array mixing bool and other elements")
+    if all(is_intlike(x) for x in data):
+        return "i"
+    if all(is_number(x) or is_nan(x) for x in data):
+        return "f"
+    return "O"
+
+
+def as_dtype_kind(d):
+    """dtype argument (np.dtype value, class, or name) -> kind, None when not given"""
+    if d is None:
+        return None
+    if isinstance(d, DtypeVal):
+        return d.kind
+    if isinstance(d, BuiltinClass) and d.name in ("float", "int", "bool", "object"):
+        return {"float": "f", "int": "i", "bool": "b", "object": "O"}[d.name]
+    if isinstance(d, str) and d in DTYPE_NAMES:
+        return DTYPE_NAMES[d]
+    raise Unsupported("dtype %r" % (d,))
+
+
+class IinfoVal:
+    """np.iinfo(t): limits of a machine integer type"""
+
+    def __init__(self, bits, signed):
+        self.min = -(2 ** (bits - 1)) if signed else 0
+        self.max = 2 ** (bits - 1) - 1 if signed else 2 ** bits - 1
+
+
+INT_TYPES = {"int": (64, True), "int8": (8, True), "int16": (16, True), "int32": (32, True), "int64": (64, True),
+             "uint8": (8, False), "uint16": (16, False), "uint32": (32, False), "uint64": (64, False)}
+
+
 def size(shape):
     n = 1
     for s in shape:
@@ -44,6 +117,8 @@ def to_nested(I, st, v):
             return [to_nested(I, st, x) for x in e.items]
         if e.kind == "symlist":
             raise Unsupported("numpy array from a symbolic-length list")
+        if e.kind == "dict":
+            return v  # a dictionary is one element of an object array
         raise Unsupported("numpy array from %s" % e.kind)
     if isinstance(v, FrozenList):
         return [to_nested(I, st, x) for x in v.items]
@@ -51,9 +126,13 @@ def to_nested(I, st, v):
         return [to_nested(I, st, x) for x in v]
     if isinstance(v, range):
         return list(v)
-    if is_number(v) or v is None or isinstance(v, str):
+    if is_number(v) or v is None or isinstance(v, (str, bytes)) or is_nan(v):
         return v
     raise Unsupported("numpy array element %r" % (v,))
+
+
+class Ragged(Exception):
+    """inhomogeneous nested sequence: numpy >= 1.24 raises ValueError for it (np.array without dtype=object)"""
 
 
 def shape_of(n):
@@ -63,7 +142,7 @@ def shape_of(n):
         s0 = shape_of(n[0])
         for x in n[1:]:
             if shape_of(x) != s0:
-                raise Unsupported("ragged array")
+                raise Ragged()
         return (len(n),) + s0
     return ()
 
@@ -91,10 +170,16 @@ def mk(I, st, nested, dtype=None):
     data = flatten(nested)
     if dtype == "float":
         data = [tofloat(x) for x in data]
-    elif any(is_reallike(x) for x in data):
-        # numpy upcasts mixed int/float arrays to float
+    elif (any(is_reallike(x) for x in data) or any(is_nan(x) for x in data)) and all(is_number(x) or is_nan(x) for x in data):
+        # numpy upcasts mixed int/float arrays to float (nan is a float)
         data = [tofloat(x) if is_number(x) else x for x in data]
-    return st.alloc(NdE(shape, data))
+    elif any(is_reallike(x) for x in data):
+        data = [tofloat(x) if is_number(x) else x for x in data]
+    e = NdE(shape, data)
+    if dtype == "O" or dtype_of(e) == "O":
+        e.dtype = "O"  # an object array stays one whatever is assigned to it later
+        e.data = list(flatten(nested))
+    return st.alloc(e)
 
 
 def tofloat(x):
@@ -274,6 +359,23 @@ def nd_getitem(I, st, ref, idx):
 
 def nd_setitem(I, st, ref, idx, v):
     e = st.get(ref)
+    if getattr(e, "shared", False):
+        raise Unsupported("item assignment to an array that shares memory with a buffer")
+    if isinstance(idx, Ref) and st.get(idx).kind == "nd" and st.get(idx).data and all(
+        isinstance(x, bool) or (is_z3(x) and z3.is_bool(x)) for x in st.get(idx).data
+    ):
+        yield from nd_set_mask(I, st, ref, idx, v)
+        return
+    if getattr(e, "dtype", None) == "O" and isinstance(idx, int) and not isinstance(idx, bool) and len(e.shape) == 1 and (
+        v is None or (isinstance(v, Ref) and st.get(v).kind in ("nd", "dict"))
+    ):
+        # one element of a 1-d object array: the object itself is stored
+        if not -e.shape[0] <= idx < e.shape[0]:
+            yield st, exc("IndexError", "index out of bounds")
+            return
+        e.data[idx % e.shape[0]] = v
+        yield st, None
+        return
     try:
         shape, pos = resolve_index(I, st, e.shape, idx)
     except IndexError:
@@ -389,12 +491,39 @@ def nd_getattr(I, st, ref, name):
     elif name == "astype":
         def _as(I, st, t):
             ee = st.get(ref)
-            if isinstance(t, BuiltinClass) and t.name == "float":
-                return st.alloc(NdE(ee.shape, [tofloat(x) for x in ee.data]))
+            if (isinstance(t, BuiltinClass) and t.name == "float") or (isinstance(t, DtypeVal) and t.kind == "f"):
+                if any(x is None for x in ee.data):
+                    return exc("TypeError", "float() argument must be a string or a real number, not 'NoneType'")
+                if not all(is_number(x) or is_nan(x) for x in ee.data):
+                    raise Unsupported("astype(float) of non-numeric elements")
+                ne = NdE(ee.shape, [tofloat(x) for x in ee.data])
+                ne.dtype = "f"
+                return st.alloc(ne)
+            if (isinstance(t, BuiltinClass) and t.name == "int") or (isinstance(t, DtypeVal) and t.kind == "i"):
+                if any(x is None for x in ee.data):
+                    return exc("TypeError", "int() argument must be a string, a bytes-like object or a real number, not 'NoneType'")
+                if all(is_intlike(x) for x in ee.data):
+                    ne = NdE(ee.shape, ee.data)
+                    ne.dtype = "i"
+                    return st.alloc(ne)
+                raise Unsupported("astype(int) of non-integer elements")
+            if t == "S" and (dtype_of(ee) == "U" or not ee.data):
+                # unicode -> byte strings: ascii encoding, UnicodeEncodeError otherwise
+                out = []
+                for x in ee.data:
+                    try:
+                        out.append(x.encode("ascii"))
+                    except UnicodeEncodeError as err:
+                        return exc("UnicodeEncodeError", str(err))
+                ne = NdE(ee.shape, out)
+                ne.dtype = "S"
+                return st.alloc(ne)
             raise Unsupported("astype")
         yield st, simple(_as)
     elif name == "dtype":
-        yield st, Opaque("dtype")
+        yield st, DtypeVal(dtype_of(e))
+    elif name == "flat":
+        yield st, st.alloc(ListE(list(e.data)))  # iterator over the elements in row-major order
     else:
         raise Unsupported("ndarray attribute " + name)
 
@@ -406,7 +535,11 @@ def make_module(I):
     def reg(name, fn):
         def f(I, st, a, k):
             I.trust("numpy", "A5: numpy mini-model (fixed shapes, elementwise real arithmetic, dot, indexing)")
-            yield st, fn(I, st, *a, **k)
+            try:
+                r = fn(I, st, *a, **k)
+            except Ragged:
+                r = exc("ValueError", "setting an array element with a sequence. The requested array has an inhomogeneous shape")
+            yield st, r
 
         N[name] = Builtin("numpy." + name, f)
 
@@ -414,8 +547,33 @@ def make_module(I):
         dt = None
         if isinstance(dtype, BuiltinClass) and dtype.name == "float":
             dt = "float"
+        elif isinstance(dtype, DtypeVal) or (isinstance(dtype, BuiltinClass) and dtype.name == "object"):
+            k = as_dtype_kind(dtype)
+            if k == "f":
+                dt = "float"
+            elif k == "O":
+                dt = "O"
+            else:
+                raise Unsupported("np.array dtype")
         elif dtype is not None and not (isinstance(dtype, BuiltinClass) and dtype.name == "int"):
             raise Unsupported("np.array dtype")
+        if dt == "O":
+            # dtype=object: when the nested sequence is not rectangular because top-level entries are None / scalars
+            # next to sequences, numpy makes a 1-d object array of the top-level entries themselves
+            try:
+                shape_of(to_nested(I, st, v))
+            except Ragged:
+                items = I.iterate(v, st)
+                def is_seq(x):
+                    return isinstance(x, tuple) or (isinstance(x, Ref) and st.get(x).kind in ("list", "nd"))
+                seqs = [x for x in items if is_seq(x)]
+                if len(seqs) == len(items):
+                    raise Unsupported("object array from sequences that are ragged below the top level")
+                if not all(x is None or is_number(x) or is_seq(x) for x in items):
+                    raise Unsupported("object array element")
+                e = NdE((len(items),), items)
+                e.dtype = "O"
+                return st.alloc(e)
         return mk(I, st, to_nested(I, st, v), dt)
 
     reg("array", array)
@@ -470,6 +628,38 @@ def make_module(I):
     N["abs"] = Builtin("numpy.abs", elementwise(_abs))
     N["absolute"] = N["abs"]
     N["ndarray"] = BuiltinClass("ndarray")
+    reg("dtype", lambda I, st, d: DtypeVal(as_dtype_kind(d)))
+    for _nm in ("int8", "int16", "int32", "uint8", "uint16", "uint32", "uint64"):
+        N[_nm] = BuiltinClass(_nm)
+    N["uint"] = N["uint64"]
+    N["unsignedinteger"] = BuiltinClass("unsignedinteger")
+    N["signedinteger"] = BuiltinClass("signedinteger")
+    N["str_"] = BuiltinClass("str_")
+
+    def _iinfo(I, st, t):
+        if isinstance(t, DtypeVal):
+            if t.kind != "i":
+                return exc("ValueError", "Invalid integer data type %r." % t.kind)
+            return IinfoVal(64, True)
+        if isinstance(t, BuiltinClass) and t.name in INT_TYPES:
+            return IinfoVal(*INT_TYPES[t.name])
+        raise Unsupported("np.iinfo(%r)" % (t,))
+
+    reg("iinfo", _iinfo)
+
+    def _issubdtype(I, st, d, t):
+        """np.issubdtype for the dtypes of modelled arrays (int64, float64, bool, str, bytes, object) against the abstract
+        classes np.floating / np.integer / np.signedinteger / np.unsignedinteger / np.number / np.str_"""
+        kind = as_dtype_kind(d)
+        if not isinstance(t, BuiltinClass):
+            raise Unsupported("np.issubdtype(.., %r)" % (t,))
+        table = {"floating": ("f",), "integer": ("i",), "signedinteger": ("i",), "unsignedinteger": (), "number": ("i", "f"),
+                 "str_": ("U",)}
+        if t.name not in table:
+            raise Unsupported("np.issubdtype(.., %s)" % t.name)
+        return kind in table[t.name]
+
+    reg("issubdtype", _issubdtype)
     N["float64"] = BuiltinClass("float", float)
     N["int64"] = BuiltinClass("int", int)
     N["integer"] = BuiltinClass("integer")
@@ -515,7 +705,59 @@ def make_module(I):
         return is_number(v) or isinstance(v, str)
 
     reg("isscalar", _isscalar)
-    reg("isnan", lambda I, st, v: False)  # A1: reals are never NaN
+
+    def _where(I, st, cond, *xy):
+        """np.where(cond) with ONE argument over a 1-d sequence of concrete truth values: (indices of the true ones,)"""
+        if xy:
+            raise Unsupported("np.where with three arguments")
+        s, d = asnd(I, st, cond)
+        if len(s) != 1:
+            raise Unsupported("np.where on a %d-d condition" % len(s))
+        if not all(isinstance(x, bool) for x in d):
+            raise Unsupported("np.where on a symbolic condition")
+        e = NdE((sum(1 for x in d if x),), [i for i, x in enumerate(d) if x])
+        e.dtype = "i"
+        return (st.alloc(e),)
+
+    reg("where", _where)
+
+    def _repeat(I, st, v, n):
+        """np.repeat(scalar, n) -> 1-d array of n copies"""
+        if not (is_number(v) or is_nan(v)) or not isinstance(n, int) or isinstance(n, bool) or n < 0:
+            raise Unsupported("np.repeat of a non-scalar or with a symbolic count")
+        return mk(I, st, [v] * n)
+
+    reg("repeat", _repeat)
+
+    def _reshape(I, st, v, shape):
+        sh, d = asnd(I, st, v)
+        shape = tuple(I.iterate(shape, st)) if not isinstance(shape, int) else (shape,)
+        if not all(isinstance(x, int) and not isinstance(x, bool) and x >= 0 for x in shape):
+            raise Unsupported("np.reshape with a symbolic or inferred (-1) dimension")
+        if size(shape) != len(d):
+            return exc("ValueError", "cannot reshape array of size %d into shape %r" % (len(d), shape))
+        e = NdE(shape, d)
+        if isinstance(v, Ref) and st.get(v).kind == "nd" and "dtype" in st.get(v).__dict__:
+            e.dtype = st.get(v).dtype
+        return st.alloc(e)
+
+    reg("reshape", _reshape)
+    def _isnan(I, st, v):
+        """A1: a real is never NaN; the literal np.nan (kept as an uninterpreted element of float arrays) is"""
+        if isinstance(v, Ref) and st.get(v).kind == "nd":
+            e = st.get(v)
+            if not all(is_number(x) or is_nan(x) for x in e.data):
+                raise Unsupported("np.isnan of a non-numeric array")
+            r = NdE(e.shape, [is_nan(x) for x in e.data])
+            r.dtype = "b"
+            return st.alloc(r)
+        if is_nan(v):
+            return True
+        if is_number(v):
+            return False
+        raise Unsupported("np.isnan of %r" % (v,))
+
+    reg("isnan", _isnan)
     reg("isfinite", lambda I, st, v: True)
     return N
 
@@ -532,3 +774,106 @@ def make_linalg(I):
 
     L["norm"] = Builtin("numpy.linalg.norm", norm)
     return L
+
+
+def ndarray_new(I, st, args, kwargs):
+    """np.ndarray(shape, dtype=float, buffer=None): with a buffer of the SAME element kind the first prod(shape) elements
+    of the buffer in row-major order (TypeError when the buffer is too small); without buffer only the object dtype is
+    modelled (numpy fills it with None).  numpy returns a view of the buffer: the result is marked `shared` and item
+    assignment to it is refused (Unsupported), a reinterpretation of the bytes under another dtype is refused too."""
+    names = ["shape", "dtype", "buffer"]
+    a = dict(zip(names, args))
+    for k, v in kwargs.items():
+        if k not in names or k in a:
+            raise Unsupported("np.ndarray argument " + k)
+        a[k] = v
+    shape = a.get("shape")
+    if isinstance(shape, Ref) and st.get(shape).kind == "nd":
+        shape = tuple(st.get(shape).data)
+    elif isinstance(shape, Ref) or isinstance(shape, tuple):
+        shape = tuple(I.iterate(shape, st))
+    else:
+        shape = (shape,)
+    if not all(isinstance(x, int) and not isinstance(x, bool) and x >= 0 for x in shape):
+        raise Unsupported("np.ndarray with a symbolic or negative shape")
+    kind = as_dtype_kind(a.get("dtype")) or "f"
+    buf = a.get("buffer")
+    if buf is None:
+        if kind != "O":
+            raise Unsupported("np.ndarray without buffer (uninitialised memory)")
+        e = NdE(shape, [None] * size(shape))
+        e.dtype = "O"
+        yield st, st.alloc(e)
+        return
+    if not (isinstance(buf, Ref) and st.get(buf).kind == "nd"):
+        raise Unsupported("np.ndarray buffer that is not an array")
+    be = st.get(buf)
+    if dtype_of(be) != kind or kind not in ("i", "f", "b"):
+        raise Unsupported("np.ndarray reinterpreting a buffer of another dtype")
+    I.trust("numpy-ndarray-buffer", "np.ndarray(shape, dtype, buffer) of the buffer's own dtype = its first prod(shape) elements; the result may not be assigned to (it is a view)")
+    n = size(shape)
+    if len(be.data) < n:
+        yield st, exc("TypeError", "buffer is too small for requested array")
+        return
+    e = NdE(shape, be.data[:n])
+    e.shared = True
+    yield st, st.alloc(e)
+
+
+def make_char(I):
+    """numpy.char: decode of an array of byte strings (concrete) -> array of str"""
+    C = {}
+
+    def decode(I, st, a, k):
+        if k or len(a) != 1:
+            raise Unsupported("np.char.decode with an encoding argument")
+        sh, d = asnd(I, st, a[0])
+        if not all(isinstance(x, bytes) for x in d):
+            raise Unsupported("np.char.decode of non-bytes elements")
+        out = []
+        for x in d:
+            try:
+                out.append(x.decode())
+            except UnicodeDecodeError as err:
+                yield st, exc("UnicodeDecodeError", str(err))
+                return
+        e = NdE(sh, out)
+        e.dtype = "U"
+        yield st, st.alloc(e)
+
+    C["decode"] = Builtin("numpy.char.decode", decode)
+    return C
+
+
+def nd_set_mask(I, st, ref, mask, v):
+    """a[mask] = scalar with a boolean mask of a's shape: the elements where the mask holds get the value; a mask
+    element that is symbolic splits the path (both outcomes, each with its condition)"""
+    e = st.get(ref)
+    me = st.get(mask)
+    if me.shape != e.shape:
+        raise Unsupported("boolean mask of another shape")
+    if isinstance(v, Ref) or isinstance(v, tuple):
+        raise Unsupported("boolean mask assignment of a sequence")
+    isfloat = getattr(e, "dtype", None) != "O" and any(is_reallike(x) for x in e.data)
+    if v is None and getattr(e, "dtype", None) != "O":
+        yield st, exc("TypeError", "float() argument must be a string or a real number, not 'NoneType'")
+        return
+    val = tofloat(v) if (isfloat and is_number(v)) else v
+    conds = list(me.data)
+
+    def rec(st1, k):
+        if k == len(conds):
+            yield st1, None
+            return
+        c = conds[k]
+        if isinstance(c, bool):
+            if c:
+                st1.get(ref).data[k] = val
+            yield from rec(st1, k + 1)
+            return
+        for st2, ok in I.branch(st1, c):
+            if ok:
+                st2.get(ref).data[k] = val
+            yield from rec(st2, k + 1)
+
+    yield from rec(st, 0)
